@@ -26,7 +26,10 @@ package blockwise
 //
 // BERT buffer sizing (RFC 8323 section 6): whole multiples of 1024 bounded by the maximum message size.
 //
+//@ spec bufSize(szx int, maxMessageSize int) int = ite(szx < 7, szxSize(szx), (maxMessageSize / 1024) * 1024)
+//
 //@ func bufferSize(szx SZX, maxMessageSize uint32) (r int64)
+//@   ensures [spec] szx <= 7 ==> r == bufSize(szx, maxMessageSize)
 //@   ensures [non-bert] szx < 7 ==> r == szxSize(szx)
 //@   ensures [bert] szx == 7 ==> r % 1024 == 0 && 0 <= r && r <= maxMessageSize && maxMessageSize - r < 1024
 //
@@ -52,12 +55,16 @@ package blockwise
 //@   modifies anything
 //@   ensures w != nil ==> w.response == old(w.response)
 //
+//@ immutable BlockWise.sendingMessagesCache
+//@ immutable BlockWise.receivingMessagesCache
+//@ immutable BlockWise.cc
+//
 // ---- C04: the sender's block arithmetic ----------------------------------------------------------------
 //
 // createSendingMessage cuts one block out of the body of the message being sent. For the block option
 // value it is given (szx0, num0 - the block the peer asked for / acknowledged) and the two limits:
-// szx = min(szx0, maxSZX); the block starts at body offset off = num0 * size(szx) (+ one buffer for
-// Block1: the acknowledged block is skipped); at most bufferSize(szx, maxMessageSize) bytes are read
+// szx = min(szx0, maxSZX); the block starts at body offset off = num0 * size(szx) (+ one buffer when the
+// peer has acknowledged block num0 of a Block1 upload: the acknowledged block is skipped); at most bufferSize(szx, maxMessageSize) bytes are read
 // from exactly that offset; `more` is set iff the body continues after what was read; the block option
 // written carries (szx, off / size(szx), more) and the size option the total body size; on every error
 // the message acquired for the block is given back to the pool and nothing is returned.
@@ -75,12 +82,15 @@ package blockwise
 //@   trusted
 //@   ensures e != nil
 //
-//@ func (*BlockWise) createSendingMessage(sendingMessage *pool.Message, maxSZX SZX, maxMessageSize uint32, block uint32) (sendMessage *pool.Message, more bool, err error)
+//@ func (*BlockWise) createSendingMessage(sendingMessage *pool.Message, maxSZX SZX, maxMessageSize uint32, block uint32, peerHasBlock bool) (sendMessage *pool.Message, more bool, err error)
 //@   requires b != nil && sendingMessage != nil && maxSZX <= 7 && len(sendingMessage.msg.Options) < 100000
 //@   modifies anything
 //@   opaque-calls pure
 //@   ensures [bad-option-nothing-acquired] block > 16777215 ==> err != nil && notCalled(AcquireMessage)
-//@   ensures [offset] called(Seek) ==> callArg(Seek, 0, 1) == (block / 16) * szxSize(min(block % 8, maxSZX)) + ite(old(sendingMessage.msg.Code) == 2 || old(sendingMessage.msg.Code) == 3, callRes(bufferSize, 0, 0), 0) && callArg(Seek, 0, 2) == 0
+//@   ensures [offset] called(Seek) ==> callArg(Seek, 0, 1) == (block / 16) * szxSize(min(block % 8, maxSZX)) + ite((old(sendingMessage.msg.Code) == 2 || old(sendingMessage.msg.Code) == 3) && peerHasBlock, callRes(bufferSize, 0, 0), 0) && callArg(Seek, 0, 2) == 0
+//@   witness start = off
+//@   ensures [start-is-the-offset] called(Seek) ==> start == callArg(Seek, 0, 1)
+//@   ensures [start] err == nil ==> sendMessage != nil && start == (block / 16) * szxSize(min(block % 8, maxSZX)) + ite((old(sendingMessage.msg.Code) == 2 || old(sendingMessage.msg.Code) == 3) && peerHasBlock, bufSize(min(block % 8, maxSZX), maxMessageSize), 0)
 //@   ensures [window] called(bufferSize) ==> callArg(bufferSize, 0, 0) == min(block % 8, maxSZX) && callArg(bufferSize, 0, 1) == maxMessageSize
 //@   ensures [reads-one-window-at-offset] called(ReadFull) ==> len(callArg(ReadFull, 0, 1)) == callRes(bufferSize, 0, 0) && callRes(Seek, 0, 1) == nil && callRes(Seek, 0, 0) == callArg(Seek, 0, 1)
 //@   ensures [more-iff-body-continues] err == nil ==> (more <==> callRes(Seek, 0, 0) + callRes(ReadFull, 0, 0) != callRes(BodySize, 0, 0))
@@ -144,3 +154,19 @@ package blockwise
 //@   ensures [failure-forgets-transfer] err != nil && called(getCachedReceivedMessage) && callRes(getCachedReceivedMessage, 0, 2) == nil ==> called(Delete)
 //@   ensures [lock-given-back] called(getCachedReceivedMessage) && callRes(getCachedReceivedMessage, 0, 2) == nil ==> callCount(opaque) == 1 && callFn(opaque, 0) == callRes(getCachedReceivedMessage, 0, 1)
 //@   param next:
+//
+// startSendingMessage (first block of a transfer that this side starts: a response, or a one-way
+// write): a body smaller than one block goes out whole; otherwise the first message carries the block
+// the option value names - for a transfer that STARTS, block 0 from offset 0 (defect D15: a POST/PUT
+// write started at the second block - repaired) - and the full message is remembered for the blocks
+// to come.
+//
+//@ func (*BlockWise) startSendingMessage(w *responsewriter.ResponseWriter, maxSZX SZX, maxMessageSize uint32, block uint32) (err error)
+//@   requires b != nil && w != nil && w.response != nil && maxSZX <= 7 && len(w.response.msg.Options) < 100000 && b.sendingMessagesCache != nil && b.sendingMessagesCache.Map != nil
+//@   modifies anything
+//@   opaque-calls pure
+//@   lockinv [no-nil-elements] forall k int :: {present(b.sendingMessagesCache.Map.data, k)} present(b.sendingMessagesCache.Map.data, k) ==> b.sendingMessagesCache.Map.data[k] != nil
+//@   ensures [small-body-whole] called(BodySize) && callRes(BodySize, 0, 1) == nil && callRes(BodySize, 0, 0) < szxSize(maxSZX) ==> err == nil && notCalled(createSendingMessage) && notCalled(Swap)
+//@   ensures [cuts-at-most-once] callCount(createSendingMessage) <= 1
+//@   ensures [starts-where-the-option-says] called(createSendingMessage) && callRes(createSendingMessage, 0, 2) == nil ==> !callArg(createSendingMessage, 0, 5) && createSendingMessage.start == (block / 16) * szxSize(min(block % 8, maxSZX))
+//@   ensures [first-block-replaces-message] called(createSendingMessage) && callRes(createSendingMessage, 0, 2) == nil ==> callCount(Swap) == 1 && callArg(Swap, 0, 1) == callRes(createSendingMessage, 0, 0)
